@@ -14,6 +14,8 @@ def check(ctx: Ctx) -> None:
     rep.rule("R14.1", "stop(num) draws ids from the reversed view of the running registry (insertion order = creation order), keeps a prefix "
                       "bounded by num with the bound tested before the append, passes exactly that list to self.cancel(*ids) and returns the same "
                       "list; stop_all == stop(self.num_running). Unrecognised ways of computing the prefix are inconclusive")
+    from .shared import r_counters
+    r_counters(ctx, "R14.4", ("num_running",))
     for f in ctx.pool_funcs("stop"):
         sc = ctx.an.scope(f)
         g = ctx.an.cfg(f)
